@@ -426,15 +426,25 @@ Fixpoint exp_nodes (k : nat) (decls : list edecl) (s : lseg) : option (list (nat
   | [] => Some []
   | d :: ds =>
       match lookup s d with
-      | _ :: _ as vs =>
+      | v :: vs =>
           match exp_nodes (S k) ds s with
-          | Some l => Some (map (fun v => (k, v)) vs ++ l) | None => None end
+          | Some l => Some (map (fun x => (k, x)) (v :: vs) ++ l) | None => None end
       | [] =>
           if d_empty_if_missing d || (match d_default d with Some _ => true | None => false end) then
             match exp_nodes (S k) ds s with
             | Some l => Some ((k, optb (d_default d)) :: l) | None => None end
           else None
       end
+  end.
+
+(* the whole reader over one segment declaration: nodes until the first fatal error *)
+Fixpoint exp_full (decls : list edecl) (ss : list lseg) : list readres :=
+  match ss with
+  | [] => []
+  | s :: r => match exp_nodes 0 decls s with
+              | Some kids => RNode kids :: exp_full decls r
+              | None => [RFatal]
+              end
   end.
 
 (* ---- correspondence case ---------------------------------------------------------------------- *)
@@ -479,6 +489,12 @@ Definition check_case (c : ecase) : bool :=
   && match ec_logical c with
      | None => true
      | Some segs =>
+         (* the generator's inverse and the expected results, as the theorems state them *)
          bytes_eqb (edi_encode (ec_cfg c) segs)
                    (if c_ignore_crlf (ec_cfg c) then strip_crlf (ec_input c) else ec_input c)
+         && list_eqb segres_eqb (map (fun x => exp_seg (ec_cfg c) (ls_seg x)) segs) (ec_raw c)
+         && match ec_full c with
+            | None => true
+            | Some (_, decls, obs) => list_eqb readres_eqb (exp_full decls (map ls_seg segs)) obs
+            end
      end.
